@@ -193,7 +193,8 @@ def starts(program, view, loop_iters=(0, 1)):
             for i, e in enumerate(st.events):
                 if e.kind == "assign" and e.d["target"].endswith(".service_start_date") and e.d["value"] != "False":
                     tok = e.d["target"][: -len(".service_start_date")]
-                    att = [x for x in st.events[:i] if x.kind == "call" and x.d["meth"] == "attach_server" and (x.d["args"] + ["?", "?"])[1].strip("()") == tok.strip("()")]
+                    att = [x for x in st.events if x.kind == "call" and x.d["meth"] == "attach_server" and (x.d["args"] + ["?", "?"])[1].strip("()") == tok.strip("()")
+                           and x.frame.fid == e.frame.fid]      # same method activation, before or after the date assignment
                     site = Site("start", e, st, i, view)
                     site.cust = tok
                     out.append({"root": root, "params": params, "event": e, "state": st, "idx": i, "token": tok, "attached": bool(att), "site": site})
